@@ -11,12 +11,14 @@
 //	deps_cover_reads               the plan hypothesis of coq/C08/ProofsSchedule.v evaluated on (plan, log)
 //	writes_compatible              the other one
 //
+//	response_order_independent/whole, .../faults, request_set_order_independent/faults: see faults.go
+//
 // and the dumped trees are written in the line format of ocaml/c08/driver.ml so that the extracted
 // respects_deps_b / exactly_once_b run on plans the real planner produced.
 //
 //	c08e gen  -seed S -n N [-from I] [-knobs K] [-tier quick|thorough] [-settle us] -out results.jsonl -trees trees.cases
-//	c08e one  -seed S -index I [-knobs K] [-exact 1] [-mf 0|1] [-sched 0|1] [-v 1]
-//	c08e corpus -in corpus.tsv -out results.jsonl -trees trees.cases
+//	c08e one  -seed S -index I [-knobs K] [-exact 1] [-mf 0|1] [-sched 0|1] [-v 1] [-faults 'off' | 'ropt=NAME;kinds=K1,K2']
+//	c08e corpus -in corpus.tsv -out results.jsonl -trees trees.cases      (lines: seed, index, knobs, "mf,sched"[, faults])
 package main
 
 import (
@@ -30,6 +32,8 @@ import (
 	"gvh/common"
 	"gvh/e2e"
 	"gvh/fedlab"
+
+	"github.com/wundergraph/graphql-go-tools/v2/pkg/engine/resolve"
 )
 
 type optSet struct{ MF, Sched bool }
@@ -69,6 +73,7 @@ type outcome struct {
 	Stats      map[string]int `json:"stats"`
 	Violations []string       `json:"violations,omitempty"`
 	Orderlog   []string       `json:"orderlog,omitempty"`
+	Faults     string         `json:"faults,omitempty"`
 	WallMs     int64          `json:"wall_ms"`
 	Rerun      string         `json:"rerun"`
 }
@@ -273,10 +278,13 @@ func reachable(byID map[int]*e2e.Fetch, from int) map[int]bool {
 	return seen
 }
 
-func (e *env) checkCase(c *fedlab.Case, lab *fedlab.Lab, pl *e2e.Planner, opt optSet, rnd *common.Rand) *outcome {
+func (e *env) checkCase(c *fedlab.Case, lab *fedlab.Lab, pl *e2e.Planner, opt optSet, rnd *common.Rand, flab *fedlab.Lab, roptName string, fs faultSpec) *outcome {
 	t0 := time.Now()
 	o := &outcome{Seed: c.Seed, Index: c.Index, Knobs: c.Knobs.String(), Opt: opt.String(), Stats: map[string]int{}, Op: c.Op.Text()}
 	o.Rerun = fmt.Sprintf("harness/bin/c08e one -seed %d -index %d -knobs %s -exact 1 -mf %d -sched %d -v 1", c.Seed, c.Index, c.Knobs.String(), b2i(opt.MF), b2i(opt.Sched))
+	if fs.ropt != "" || len(fs.kinds) > 0 {
+		o.Rerun += fmt.Sprintf(" -faults 'ropt=%s;kinds=%s'", fs.ropt, strings.Join(fs.kinds, ","))
+	}
 	defer func() { o.WallMs = time.Since(t0).Milliseconds() }()
 	viol := func(clause, format string, a ...any) {
 		if len(o.Violations) < 12 {
@@ -347,6 +355,7 @@ func (e *env) checkCase(c *fedlab.Case, lab *fedlab.Lab, pl *e2e.Planner, opt op
 		baseData = base.Data.String()
 	}
 	baseErrs := errMultiset(base.Errors)
+	baseCanon := canonOf(base)
 	if !base.Data.EqualUnordered(mono.Data) {
 		viol("response_order_independent", "ungated run differs from Lab.Mono: %s", base.Data.FirstDiffUnordered(mono.Data, "data"))
 	}
@@ -408,7 +417,11 @@ func (e *env) checkCase(c *fedlab.Case, lab *fedlab.Lab, pl *e2e.Planner, opt op
 		}
 		if es := errMultiset(res.Errors); !eqStrings(es, baseErrs) {
 			viol("response_order_independent/errors", "errors %v vs ungated %v under order %s", es, baseErrs, ordTxt)
+		} else if d := diffCanon(baseCanon, canonOf(res)); d != "" && data == baseData {
+			// the WHOLE response: top-level members and their order, extensions, ... (errors as a multiset)
+			viol("response_order_independent/whole", "the response differs from the ungated run outside data and errors: %s (order %s)", d, ordTxt)
 		}
+		o.Stats["whole_response_comparisons"]++
 		// request multiset (single flight may merge two identical concurrent requests)
 		keys := e2e.KeyMultiset(res.Requests)
 		for k, n := range keys {
@@ -527,12 +540,21 @@ func (e *env) checkCase(c *fedlab.Case, lab *fedlab.Lab, pl *e2e.Planner, opt op
 		return e2e.RunGated(lab, opText, opName, vars, prefix, pick, e.cfg.settle, len(base.Requests))
 	}
 	seen := map[string]bool{}
+	var conc *concSet
 	visit := func(g *e2e.GateRun) {
 		if seen[g.Signature()] {
 			return
 		}
 		seen[g.Signature()] = true
 		checkRun(g)
+		// the widest set of requests in flight at one decision (with the releases that lead there)
+		if !g.Diverged {
+			for j, ch := range g.Choices {
+				if len(ch.Alts) >= 2 && (conc == nil || len(ch.Alts) > len(conc.alts)) {
+					conc = &concSet{prefix: append([]string(nil), g.Order[:j]...), alts: append([]string(nil), ch.Alts...)}
+				}
+			}
+		}
 	}
 	_, ex := e2e.Explore(e.cfg.maxDFS, runWith, visit)
 	o.Exhaustive = ex
@@ -541,6 +563,9 @@ func (e *env) checkCase(c *fedlab.Case, lab *fedlab.Lab, pl *e2e.Planner, opt op
 			g := runWith(nil, func(step int, alts []string) int { return rnd.Pick(len(alts)) })
 			visit(g)
 		}
+	}
+	if !fs.off {
+		e.faultPhase(c, flab, roptName, opt, o, conc, len(base.Requests), fs, viol)
 	}
 	return o
 }
@@ -843,7 +868,7 @@ func (e *env) cfgFor(tier string) {
 	if tier == "thorough" {
 		e.cfg.maxDFS, e.cfg.maxRand = 720, 200
 	} else {
-		e.cfg.maxDFS, e.cfg.maxRand = 24, 24
+		e.cfg.maxDFS, e.cfg.maxRand = 24, 16
 	}
 }
 
@@ -966,7 +991,7 @@ func driverLine(tree *e2e.Tree, raw []*e2e.Fetch, opt optSet, subIdx map[string]
 	return fmt.Sprintf("(c08 dag (dag %s) (res %s %s %s %s))", strings.Join(fs, " "), opt.mode(), t, t, t)
 }
 
-func (e *env) runCases(cases []*fedlab.Case, exact bool, opts []optSet, out, trees *common.Out) (nChecked int) {
+func (e *env) runCases(cases []*fedlab.Case, exact bool, opts []optSet, out, trees *common.Out, fs faultSpec) (nChecked int) {
 	enc := func(o *outcome) {
 		b, _ := json.Marshal(o)
 		out.Line(string(b))
@@ -975,13 +1000,17 @@ func (e *env) runCases(cases []*fedlab.Case, exact bool, opts []optSet, out, tre
 		cfg int
 		k   string
 	}
-	var lab *fedlab.Lab
+	var lab, flab *fedlab.Lab
 	var pl *e2e.Planner
-	labKey := ""
+	labKey, roptName := "", ""
 	closeLab := func() {
 		if pl != nil {
 			pl.Close()
 			pl = nil
+		}
+		if flab != nil {
+			flab.Close()
+			flab = nil
 		}
 		if lab != nil {
 			lab.Close()
@@ -1010,9 +1039,21 @@ func (e *env) runCases(cases []*fedlab.Case, exact bool, opts []optSet, out, tre
 					continue
 				}
 				labKey = k
+				// the fault laboratory: the same configuration and engine option set under a generated
+				// resolver option set (built lazily would save little: most configurations have a checked case)
+				if !fs.off {
+					var ro resolve.ResolverOptions
+					ro, roptName = pickRopt(c.Seed, c.CfgIdx(), opt, fs.ropt)
+					feo := eo
+					feo.Resolver = ro
+					if flab, err = fedlab.NewLab(c.Cfg, c.Uni, e.exec, feo); err != nil {
+						enc(&outcome{Seed: c.Seed, Index: c.Index, Knobs: c.Knobs.String(), Opt: opt.String(), Status: "laberror", Detail: "fault lab: " + short(err.Error())})
+						flab = nil
+					}
+				}
 			}
 			rnd := common.NewRand(c.Seed*1000003 + uint64(c.Index)*17 + uint64(b2i(opt.MF))*2 + uint64(b2i(opt.Sched)))
-			o := e.checkCase(c, lab, pl, opt, rnd)
+			o := e.checkCase(c, lab, pl, opt, rnd, flab, roptName, fs)
 			enc(o)
 			if o.Tree != "" && trees != nil {
 				if t, raw, err := pl.PlanWithRaw(c.Op.Text(), c.Op.Name, []byte(c.Op.VariablesJSON())); err == nil {
@@ -1057,6 +1098,7 @@ func main() {
 	}
 	e.cfg.settle = time.Duration(common.ArgInt(a, "settle", 1500)) * time.Microsecond
 	e.cfg.verbose = a["v"] == "1"
+	extFwd = a["extfwd"] == "1"
 	knobs := fedlab.ParseKnobs(a["knobs"])
 	switch os.Args[1] {
 	case "gen":
@@ -1075,7 +1117,7 @@ func main() {
 			cases = append(cases, fedlab.BuildCase(seed, i, 0, knobs, false))
 		}
 		t0 := time.Now()
-		nc := e.runCases(cases, false, optSets(tier, a["opts"]), out, trees)
+		nc := e.runCases(cases, false, optSets(tier, a["opts"]), out, trees, parseFaultSpec(a["faults"]))
 		fmt.Fprintf(os.Stderr, "c08e gen: %d cases x %d option sets, %d with concurrent requests, %.1fs\n", len(cases), len(optSets(tier, a["opts"])), nc, time.Since(t0).Seconds())
 	case "one":
 		seed := common.ArgU64(a, "seed", 1)
@@ -1087,7 +1129,7 @@ func main() {
 		}
 		out := common.NewOut("")
 		trees := common.NewOut("")
-		e.runCases([]*fedlab.Case{c}, true, opts, out, trees)
+		e.runCases([]*fedlab.Case{c}, true, opts, out, trees, parseFaultSpec(a["faults"]))
 		out.Close()
 		trees.Close()
 	case "corpus":
@@ -1118,7 +1160,11 @@ func main() {
 			fmt.Sscan(p[0], &seed)
 			fmt.Sscan(p[1], &idx)
 			c := fedlab.BuildCase(seed, idx, 0, fedlab.ParseKnobs(p[2]), true)
-			e.runCases([]*fedlab.Case{c}, true, optSets(tier, p[3]), out, trees)
+			fs := faultSpec{}
+			if len(p) >= 5 {
+				fs = parseFaultSpec(p[4])
+			}
+			e.runCases([]*fedlab.Case{c}, true, optSets(tier, p[3]), out, trees, fs)
 		}
 	default:
 		fmt.Println("unknown command")
